@@ -501,6 +501,33 @@ def h_minmax(fn):
     return h
 
 
+def h_abs(I, st, fv, args, kwargs, ctx):
+    x = args[0]
+    if isinstance(x, Conc) and isinstance(x.py, (int, float)):
+        return [(st, Conc(abs(x.py)))]
+    if not isinstance(x, Sym):
+        raise OutOfReach("abs of %r" % (x,))
+    t = x.t
+    r = I.U.fresh("abs")
+    # numbers: same type (bool -> int), sign dropped; -inf -> inf; NaN stays NaN.  Other values: unconstrained
+    st.pc.append(z3.Implies(I.U.isnum(t), z3.And(
+        vm.ty(r) == z3.If(vm.ty(t) == vm.TAG["bool"], vm.TAG["int"], vm.ty(t)),
+        vm.kind(r) == z3.If(vm.kind(t) == vm.NINF, vm.PINF, vm.kind(t)),
+        vm.rv(r) == z3.If(vm.rv(t) < 0, -vm.rv(t), vm.rv(t)))))
+    return [(st, Sym(r))]
+
+
+def h_float(I, st, fv, args, kwargs, ctx):
+    # float(<literal>) only: 'inf', '-inf', 'nan', numerals and numbers written in the source
+    if len(args) == 1 and not kwargs and isinstance(args[0], Conc) and isinstance(args[0].py, (str, int, float)) \
+            and not isinstance(args[0].py, bool):
+        try:
+            return [(st, Conc(float(args[0].py)))]
+        except ValueError:
+            return [(st, Raise("ValueError"))]
+    raise OutOfReach("float() of a symbolic value")
+
+
 def h_enumerate(I, st, fv, args, kwargs, ctx):
     its = I.known_items(st, args[0])
     if its is None or len(args) != 1 or kwargs:
@@ -638,11 +665,13 @@ def install(I):
     L["setattr"] = h_setattr
     L["new:object"] = lambda I, st, fv, args, kwargs, ctx: [(st, I.alloc_obj(st, None, lazy=False, label="object()"))]
     L["new:int"] = h_int
+    L.setdefault("new:float", h_float)
     L["new:tuple"] = h_tuple
     L["new:list"] = h_list
     L["new:dict"] = h_dict
     L["zip"] = h_zip
     L["enumerate"] = h_enumerate
+    L.setdefault("abs", h_abs)
     L.setdefault("max", h_minmax(max))
     L.setdefault("min", h_minmax(min))
     L["map"] = h_map
